@@ -662,8 +662,15 @@ def _save_composite_subset_state(state, context):
 @loader(CompositeSubsetState)
 def _load_composite_subset_state(rec, context):
     cls = lookup_class_with_patches(rec['_type'])
-    result = cls(context.object(rec['state1']),
-                 context.object(rec['state2']))
+    state1 = context.object(rec['state1'])
+    state2 = context.object(rec['state2'])
+    # The initializer copies the states it is given, but some states are only
+    # completed once the rest of the session has been read (see
+    # __setgluestate_callback__), which would be lost on the copies, so we
+    # keep the restored states themselves.
+    result = cls.__new__(cls)
+    result.state1 = state1
+    result.state2 = state2
     return result
 
 
